@@ -26,6 +26,9 @@ def dispatch(prop):
     if prop == "C05":
         import e3_target
         return e3_target.main
+    if prop == "C04":
+        import e3_pipeline
+        return e3_pipeline.main
     raise SystemExit(f"unknown property {prop}")
 
 
